@@ -17,6 +17,10 @@ SIZE = {"B": 1, "H": 2, "I": 4, "b": 1, "h": 2, "i": 4, "Q": 8, "q": 8}
 def rand_value(rng, fmt):
     n = SIZE[fmt]
     lo, hi = (-(1 << 8 * n - 1), (1 << 8 * n - 1) - 1) if fmt.islower() else (0, (1 << 8 * n) - 1)
+    # and the ends of the signed 32-bit immediate field, where the generated code switches from an immediate to a loaded constant
+    edges = [b for b in (2 ** 31, 2 ** 31 - 1, 2 ** 31 + 1, -2 ** 31, -2 ** 31 - 1, 2 ** 32 - 1, 2 ** 32) if lo <= b <= hi]
+    if edges and rng.random() < 0.3:
+        return rng.choice(edges)
     return rng.choice([lo, hi, 0, 1, rng.randint(lo, hi), rng.randint(max(lo, -200), min(hi, 200))])
 
 
@@ -93,8 +97,22 @@ class C19(Check):
                 stmts.append(["wr", k, val, rng.choice(["const", "var"])])
         return {"terms": terms, "vars": vars_, "stmts": stmts, "frameseed": rng.randrange(2 ** 30)}
 
+    def edge_case(self, rng):
+        """a constant at the ends of the 32-bit immediate field written to a 4- or 8-byte output variable (where the generated code
+        switches between an immediate store and a loaded constant)"""
+        fmt = rng.choice(["Q", "q", "Q", "q", "I", "i"])
+        lo, hi = (-(1 << 8 * SIZE[fmt] - 1), (1 << 8 * SIZE[fmt] - 1) - 1) if fmt.islower() else (0, (1 << 8 * SIZE[fmt]) - 1)
+        edges = [b for b in (2 ** 31, 2 ** 31 - 1, 2 ** 31 + 1, -2 ** 31, -2 ** 31 - 1, -2 ** 31 + 1, 2 ** 32 - 1, 2 ** 32, -2 ** 32, 2 ** 63 - 1, -1) if lo <= b <= hi]
+        var = {"term": 0, "sm": "out", "pos": rng.choice([0, 12 - SIZE[fmt], rng.randint(0, 12 - SIZE[fmt])]), "size": fmt, "struct_off": 0, "via_struct": False,
+               "other_off": 0, "coe": 0}
+        stmts = [["wr", 0, rng.choice(edges), "const"]] + ([["wr", 0, rng.choice(edges), rng.choice(["const", "var"])]] if rng.random() < 0.4 else [])
+        return {"terms": [{"in": 4, "out": 12, "fmmu": rng.random() < 0.5}], "vars": [var], "stmts": stmts, "frameseed": rng.randrange(2 ** 30)}
+
     def gen_cases(self):
-        return [self.make_case(self.rng) for _ in range(120 if self.tier == "quick" else 1500)]
+        import random
+        rng = random.Random(self.seed + 19)      # its own stream
+        return ([self.make_case(self.rng) for _ in range(120 if self.tier == "quick" else 1500)]
+                + [self.edge_case(rng) for _ in range(20 if self.tier == "quick" else 200)])
 
     # ---- build both sync groups for a case
     def build(self, case, kernel):
@@ -407,7 +425,7 @@ class C19(Check):
     def rule(self):
         return ("1-2 terminals (2-12 input / output bytes, FMMU or direct), 1-5 process variables (40% single bits 0..7, else B H I Q b h i q at the start, the end "
                 "or a random position; 25% inside a Struct with a position offset; Structs described by the PDO table often get a second member on the SAME entry with another size - a word and one of its bits - both read in either order), a device linking all of them, 1-6 statements (reads into DeviceVars, writes of "
-                "constants or DeviceVar values, truthy values 2 / 256 for bits), frame regions filled with 0 / 0xff / random bytes; the slow path runs a second cycle on a NEW frame buffer with different contents")
+                "constants or DeviceVar values, truthy values 2 / 256 for bits), frame regions filled with 0 / 0xff / random bytes; the slow path runs a second cycle on a NEW frame buffer with different contents; plus cases writing constants at the ends of the 32-bit immediate field (2**31 and neighbours, 2**32, -2**31 - 1 ...) to 4- and 8-byte output variables")
 
     def distribution(self, cases, observed):
         d = {"bit_vars": 0, "byte_vars": 0, "struct_vars": 0, "reads": 0, "writes": 0, "build_errors": 0}
